@@ -120,7 +120,7 @@ func pathCondFacts(p Path) []CondFact {
 	for i := 0; i+1 < len(p.Blocks); i++ {
 		b := p.Blocks[i]
 		if iff, ok := b.Instrs[len(b.Instrs)-1].(*ssa.If); ok && len(b.Succs) == 2 && b.Succs[0] != b.Succs[1] {
-			out = append(out, CondFact{iff, p.Edges[i] == 0})
+			out = append(out, CondFact{If: iff, Truth: p.Edges[i] == 0})
 		}
 	}
 	return out
@@ -531,7 +531,7 @@ func ruleTableShape(w *World, r *Report) {
 		}
 	}
 	r.curRule = "C17-R"
-	r.Expect("loops of the row builder that append cells", nAppendLoops, 2)
+	r.Expect("loops of the row builder that append cells", nAppendLoops, 1)
 	// returns
 	nRet := 0
 	okAll := EnumPaths(rf.Blocks[0], map[string]bool{}, isReturnBlock, func(p Path) {
